@@ -964,6 +964,115 @@ type Content struct {
 	// Uint32Slice is a specialized byte slice designed for storing and managing 4-byte (uint32) values in a
 	// compact and efficient format.
 	Uint32Slice *Uint32Slice
+	// ZeroOf is only used in the serialized form. gob omits pointer fields whose target is a zero value
+	// (0, false, "", empty slices), so a treasure holding such a value would come back as void. ConvertToByte
+	// records here which typed field held a zero value and LoadFromByte restores it. It is 0 in memory, and
+	// absent (0) in data written by earlier versions.
+	ZeroOf ContentType
+}
+
+// zeroContentType returns the type of the content if it holds a zero-like value that gob would drop, else 0.
+// The field order is the one GetContentType uses.
+func zeroContentType(c *Content) ContentType {
+	switch {
+	case c == nil || c.Void:
+		return ContentTypeVoid
+	case c.Uint8 != nil:
+		if *c.Uint8 == 0 {
+			return ContentTypeUint8
+		}
+	case c.Uint16 != nil:
+		if *c.Uint16 == 0 {
+			return ContentTypeUint16
+		}
+	case c.Uint32 != nil:
+		if *c.Uint32 == 0 {
+			return ContentTypeUint32
+		}
+	case c.Uint64 != nil:
+		if *c.Uint64 == 0 {
+			return ContentTypeUint64
+		}
+	case c.Int8 != nil:
+		if *c.Int8 == 0 {
+			return ContentTypeInt8
+		}
+	case c.Int16 != nil:
+		if *c.Int16 == 0 {
+			return ContentTypeInt16
+		}
+	case c.Int32 != nil:
+		if *c.Int32 == 0 {
+			return ContentTypeInt32
+		}
+	case c.Int64 != nil:
+		if *c.Int64 == 0 {
+			return ContentTypeInt64
+		}
+	case c.Float32 != nil:
+		if *c.Float32 == 0 {
+			return ContentTypeFloat32
+		}
+	case c.Float64 != nil:
+		if *c.Float64 == 0 {
+			return ContentTypeFloat64
+		}
+	case c.String != nil:
+		if *c.String == "" {
+			return ContentTypeString
+		}
+	case c.Boolean != nil:
+		if !*c.Boolean {
+			return ContentTypeBoolean
+		}
+	case c.ByteArray != nil:
+		if len(c.ByteArray) == 0 {
+			return ContentTypeByteArray
+		}
+	case c.Uint32Slice != nil:
+		if len(*c.Uint32Slice) == 0 {
+			return ContentTypeUint32Slice
+		}
+	}
+	return ContentTypeVoid
+}
+
+// restoreZeroContent re-creates the zero value recorded in ZeroOf after decoding.
+func restoreZeroContent(c *Content) {
+	if c == nil {
+		return
+	}
+	switch c.ZeroOf {
+	case ContentTypeUint8:
+		c.Uint8 = new(uint8)
+	case ContentTypeUint16:
+		c.Uint16 = new(uint16)
+	case ContentTypeUint32:
+		c.Uint32 = new(uint32)
+	case ContentTypeUint64:
+		c.Uint64 = new(uint64)
+	case ContentTypeInt8:
+		c.Int8 = new(int8)
+	case ContentTypeInt16:
+		c.Int16 = new(int16)
+	case ContentTypeInt32:
+		c.Int32 = new(int32)
+	case ContentTypeInt64:
+		c.Int64 = new(int64)
+	case ContentTypeFloat32:
+		c.Float32 = new(float32)
+	case ContentTypeFloat64:
+		c.Float64 = new(float64)
+	case ContentTypeString:
+		c.String = new(string)
+	case ContentTypeBoolean:
+		c.Boolean = new(bool)
+	case ContentTypeByteArray:
+		c.ByteArray = []byte{}
+	case ContentTypeUint32Slice:
+		c.Uint32Slice = new(Uint32Slice)
+	}
+	c.ZeroOf = ContentTypeVoid
 }
 
 // TreasureStatus is an enumeration type representing the status of a "Treasure" operation in the Swamp.
@@ -1561,9 +1670,17 @@ func (t *treasure) ConvertToByte(guardID guard.ID) ([]byte, error) {
 		newObj.treasure.Content = t.treasure.Content
 	}
 
+	// remember a zero-like typed value that gob would otherwise drop (encode a copy, the live content stays as is)
+	toEncode := t.treasure
+	if zt := zeroContentType(toEncode.Content); zt != ContentTypeVoid {
+		contentCopy := *toEncode.Content
+		contentCopy.ZeroOf = zt
+		toEncode.Content = &contentCopy
+	}
+
 	var buf bytes.Buffer
 	encoder := gob.NewEncoder(&buf)
-	err := encoder.Encode(t.treasure)
+	err := encoder.Encode(toEncode)
 	if err != nil {
 		return nil, err
 	}
@@ -1586,6 +1703,7 @@ func (t *treasure) LoadFromByte(guardID guard.ID, b []byte, fileName string) err
 	if err != nil {
 		return err
 	}
+	restoreZeroContent(t.treasure.Content)
 	// filenév beállítása
 	t.treasure.FileName = &fileName
 	return nil
